@@ -48,3 +48,10 @@ package hh
 //@   loop 2 invariant bisect: i < j && j <= len(points) && appended == i && 0 <= i
 //@   loop 2 decreases j - i
 //@   ensures nothing_lost: result == nil ==> appended == len(points)
+
+// The queue reports itself empty exactly when nothing is pending: no segments, or a single segment whose
+// head position is at the footer (size is the length of the flushed file: blocks + 8-byte footer).
+//@ func (*queue).Empty
+//@   props C04
+//@   ensures empty_iff_no_pending: result == (l.head == nil || l.tail == nil || len(l.segments) == 0 || (l.head == l.tail && l.head.pos == l.head.size - 8))
+//@   modifies nothing
